@@ -122,8 +122,8 @@ CATALOGUE = [
      "            if self.bending_stress_is_computable:\n                self.time_variables['bending stress'].append(\n",
      "            if self.bending_stress_is_computable and self.bending_stress.value != 0:\n                self.time_variables['bending stress'].append(\n"),
     ('c17_wormwheel_always_advertises_bending', 'C17', 'gearpy/mechanical_objects/worm_wheel.py',
-     "        else:\n            time_variables.pop('bending stress', None)\n",
-     "        else:\n            pass\n"),
+     "        if not self.bending_stress_is_computable:\n            time_variables.pop('bending stress', None)\n",
+     "        if not self.bending_stress_is_computable:\n            pass\n"),
     ('c17_current_recorded_as_float', 'C17', M,
      "            self.time_variables['electric current'].append(\n                self.electric_current\n            )",
      "            self.time_variables['electric current'].append(\n                self.electric_current.value\n            )"),
@@ -220,6 +220,49 @@ CATALOGUE = [
     ('c08_no_current_motor_uses_pwm', 'C08', M,
      "                value=(1 - self.angular_speed /\n                       self.no_load_speed)*self.maximum_torque.value,",
      "                value=(self.pwm - self.angular_speed /\n                       self.no_load_speed)*self.maximum_torque.value,"),
+    # ---- C10
+    ('c10_ratio_inverted', 'C10', R,
+     "    slave.master_gear_ratio = slave.n_teeth/master.n_teeth",
+     "    slave.master_gear_ratio = master.n_teeth/slave.n_teeth"),
+    ('c10_self_locking_sin', 'C10', R,
+     "            friction_coefficient > master.pressure_angle.cos() * \\\n            master.helix_angle.tan()",
+     "            friction_coefficient > master.pressure_angle.cos() * \\\n            master.helix_angle.sin()"),
+    ('c10_gear_links_before_module_check', 'C10', R,
+     "    if master.module is not None and slave.module is not None:\n        if master.module != slave.module:",
+     "    master.drives = slave\n    slave.driven_by = master\n    if master.module is not None and slave.module is not None:\n        if master.module != slave.module:"),
+    ('c10_joint_ratio_from_teeth', 'C10', R,
+     "    slave.master_gear_ratio = 1.0",
+     "    slave.master_gear_ratio = slave.n_teeth/master.n_teeth if hasattr(slave, 'n_teeth') and hasattr(master, 'n_teeth') else 1.0"),
+    ('c10_worm_validates_after_linking', 'C10', R,
+     "    slave.master_gear_efficiency = efficiency\n\n    master.drives = slave\n    master.mating_role = MatingMaster\n    slave.driven_by = master\n    slave.mating_role = MatingSlave\n",
+     "    master.drives = slave\n    master.mating_role = MatingMaster\n    slave.driven_by = master\n    slave.mating_role = MatingSlave\n    slave.master_gear_efficiency = efficiency\n"),
+    ('c10_wheel_master_ratio_inverted', 'C10', R,
+     "        slave.master_gear_ratio = slave.n_starts/master.n_teeth",
+     "        slave.master_gear_ratio = master.n_teeth/slave.n_starts"),
+    ('c10_helix_check_dropped', 'C10', R,
+     "            if master.helix_angle != slave.helix_angle:",
+     "            if False:"),
+    ('c10_efficiency_upper_bound_dropped', 'C10', R,
+     "    if efficiency > 1 or efficiency < 0:\n        raise ValueError(\"Parameter 'efficiency' must be within 0 and 1.\")",
+     "    if efficiency < 0:\n        raise ValueError(\"Parameter 'efficiency' must be within 0 and 1.\")"),
+    # ---- C20
+    ('c20_walk_stops_at_flywheel', 'C20', P,
+     "        while elements[-1].drives is not None:\n            elements.append(elements[-1].drives)",
+     "        while elements[-1].drives is not None:\n            elements.append(elements[-1].drives)\n            if type(elements[-1]).__name__ == 'Flywheel' and len(elements) > 2:\n                break"),
+    ('c20_duplicate_count', 'C20', P,
+     "            if count > 1:\n                raise NameError(",
+     "            if count > 2:\n                raise NameError("),
+    ('c20_self_locking_any_worm', 'C20', P,
+     "                if element.self_locking:\n                    self.__self_locking = True",
+     "                if element.self_locking is not None:\n                    self.__self_locking = True"),
+    ('c20_elements_list', 'C20', P,
+     "        self.__elements = tuple(elements)", "        self.__elements = list(elements)"),
+    ('c20_elements_live_walk', 'C20', P,
+     "        return self.__elements\n",
+     "        elements = [self.__elements[0]]\n        while elements[-1].drives is not None and len(elements) < 64:\n            elements.append(elements[-1].drives)\n        return tuple(elements)\n"),
+    ('c20_self_locking_settable', 'C20', P,
+     "        return self.__self_locking\n",
+     "        return self.__self_locking\n\n    @self_locking.setter\n    def self_locking(self, value):\n        self.__self_locking = value\n"),
 ]
 
 
